@@ -1019,6 +1019,8 @@ pub fn c13_directory_level(tier: Tier) -> DirLevel {
             // a base contract and, in another file, a derived contract that writes the base's variables
             file("Base.sol", b"pragma solidity ^0.8.0;\ncontract Base {\n  uint256 public fee = 100;\n  address public owner;\n  constructor() { owner = msg.sender; }\n}\n"),
             file("Derived.sol", b"pragma solidity ^0.8.0;\nimport \"./Base.sol\";\ncontract Derived is Base {\n  function setFee(uint256 f) external payable { fee = f; }\n  function setOwner(address o) external payable { owner = o; }\n}\n"),
+            // files that are not analysed, at every listing position
+            file("Amm.t.sol", GARBAGE),
         ];
         materialise(&root, &tree);
         let r = root.to_str().unwrap().to_string();
@@ -1097,6 +1099,16 @@ pub fn c13_directory_level(tier: Tier) -> DirLevel {
             let full = orders_of(n);
             for o in full.iter().skip(1) {
                 jobs.push((full[0].clone(), o.clone()));
+            }
+            // a pattern named twice: wherever the repetition stands, the rendering is the same
+            for a in 0..n {
+                let b = (a + 1) % n;
+                let c = (a + 2) % n;
+                if a != b && b != c && a != c {
+                    jobs.push((vec![a, a, b, c], vec![a, b, a, c]));
+                    jobs.push((vec![a, a, b, c], vec![b, c, a, a]));
+                    jobs.push((vec![a, b, a], vec![b, a, a]));
+                }
             }
             let res = util::par_map(jobs.len(), |j| {
                 let (x, y) = &jobs[j];
@@ -1210,11 +1222,16 @@ pub fn dir_layout_check(progs: &[crate::synth::Prog], property: &str) -> (Vec<Vi
             let _ = std::fs::remove_dir_all(&root);
             std::fs::create_dir_all(root.join("one")).unwrap();
             std::fs::write(root.join("one").join("F.sol"), &text).unwrap();
+            // a second file next to it (the same program, one token per line): what is read for one file must not reach
+            // the lines of the other
+            std::fs::write(root.join("one").join("G.sol"), &l1).unwrap();
             states += 1;
             let got = run_analyze_dir(&root, &sel);
             let mut want: Findings = BTreeMap::new();
             for (pat, toks) in &flagged {
-                want.insert(*pat, vec![("F.sol".to_string(), toks.iter().map(|&t| layout::line_of(&text, offs[t])).collect())]);
+                let mut both = vec![("F.sol".to_string(), toks.iter().map(|&t| layout::line_of(&text, offs[t])).collect::<BTreeSet<i32>>()), ("G.sol".to_string(), toks.iter().map(|&t| t as i32 + 1).collect::<BTreeSet<i32>>())];
+                both.sort();
+                want.insert(*pat, both);
             }
             // ... and on through the report: the entries read back from the three rendered parts are the lines of
             // the flagged tokens too (constructs that share a line in this layout are still all listed)
